@@ -30,6 +30,26 @@ Proof.
 Qed.
 Print Assumptions C07_only_chosen_branch_cleared.
 
+(* which branch: after the scan that follows a request, the branch a splitter picks is one on which EVERY client that is not
+   timed out has asked (or is an ephemeral listener) - a synchronized consumer that has stopped taking frames is not sent any,
+   however busy its neighbour on the same branch is (also the "one of several consumers" clause of C04 for splitters) *)
+From OF Require Import Proto.Sender_Branch.
+Theorem C07_chosen_branch_everybody_asked :
+  forall tmin snap cl ds cl' ds' outs o p,
+    scan true tmin snap cl ds [] = (cl', ds', outs) -> pick_min outs None = Some (o, p) ->
+    forall c, In c snap -> c_tlast c <? tmin = false -> c_out c = o -> c_requested c = true \/ c_eph c <> 0.
+Proof. exact chosen_branch_everybody_asked. Qed.
+Print Assumptions C07_chosen_branch_everybody_asked.
+
+(* a table the theorem speaks about: branch 0 serves c1 (asked, further behind) and c3 (stopped), branch 1 serves c2 (asked):
+   branch 1 is chosen although branch 0 holds the older request *)
+Example C07_chosen_branch_example :
+  let mk := fun cid out req prev => {| c_cid := cid; c_uid := cid; c_out := out; c_tlast := 100; c_requested := req; c_eph := 0; c_prev := prev |} in
+  let snap := [mk 1 0%nat true 3; mk 2 1%nat true 4; mk 3 0%nat false 2] in
+  let '(_, _, outs) := scan true 0 snap snap true [] in
+  pick_min outs None = Some (1%nat, 4).
+Proof. vm_compute. reflexivity. Qed.
+
 (* the rejoined stream is in strictly increasing order and duplicate free (balanced receivers included) *)
 Theorem C07_rejoin_increasing :
   forall cid ll cs its,
